@@ -20,7 +20,7 @@ BOUNDS = {"quick": "depth <= 2, width <= 2; ints |x| < 2^70; text of 1-2 code po
                    "at every UTF-8 length boundary and at both edges of the surrogate gap); bytes of 0-2 symbolic bytes; floats/complex from a boundary set",
           "thorough": "same shapes + width 3 and all leaf-kind pairs in containers"}
 OUTSIDE = ["values deeper/wider than the bound", "arbitrary 64-bit float patterns (repr/float() are C code)",
-           "hosts other than 3.12 (replay only uses the host)", "lone surrogate code points",
+           "hosts other than 3.12 (replay only uses the host)",
            "the file interface xdis.marsh.dump(x, f) / load(f): the statement is about dumps/loads; on a 3.x host load(f) looks its type byte up "
            "as text and dump writes text chunks, so neither works with a binary file at all (noted, not a claim)",
            "sizes between 3 and 32766 and above 70001 for whole values (the size field itself is decided for every 32-bit value by C14.field.w_long)"]
@@ -47,6 +47,10 @@ def leaf_shapes(tier="quick"):
            ("text-bmp", ("text", [(0x7fe, 0x801)])), ("text-bmp2", ("text", [(0xfffc, 0xffff)])),
            ("text-astral", ("text", [(0xfffe, 0x10001)])), ("text-top", ("text", [(0x10fffc, 0x10ffff)])),
            ("text-presurr", ("text", [(0xd7fc, 0xd7ff)])), ("text-postsurr", ("text", [(0xe000, 0xe003)])),
+           # unpaired surrogates are text too ("text of any code points"): both ends of the block, and the low half
+           ("text-surr-lo", ("text", [(0xd7fe, 0xd801)])), ("text-surr-mid", ("text", [(0xdbfe, 0xdc01)])),
+           ("text-surr-dc80", ("text", [(0xdc7e, 0xdc81)])), ("text-surr-hi", ("text", [(0xdffe, 0xe001)])),
+           ("text-surr-pair", ("text", [(0xd83c, 0xd83d), (0xdf00, 0xdf01)])),
            ("text2", ("text", [(0x41, 0x42), (0xfe, 0x101)]))]
     for nm, f in FLOATS:
         out.append(("float-" + nm, ("const", f)))
